@@ -1,6 +1,824 @@
 package main
 
-// real-crypto sweeps: placeholder, filled in below
-func realSweep(family string, n int, seed uint64, args []string) int {
+// Real-algorithm sweeps (C01, C03, C07, C14, C17, C18): the built-in signers / verifiers of the
+// library against the Go standard library used directly as the oracle.  Self-contained: prints
+//
+//	SUMMARY evaluations=N nontrivial=M
+//	FAIL <case> || <detail> || <what>
+
+import (
+	"bytes"
+	"crypto"
+	"crypto/ecdsa"
+	"crypto/ed25519"
+	"crypto/elliptic"
+	"crypto/rand"
+	"crypto/rsa"
+	"crypto/sha256"
+	"encoding/hex"
+	"fmt"
+	"math/big"
+	"os"
+	"strings"
+	"sync"
+
+	cose "github.com/veraison/go-cose"
+)
+
+type realKey struct {
+	alg  cose.Algorithm
+	name string
+	priv crypto.Signer
+	pub  crypto.PublicKey
+}
+
+var realAlgs = []cose.Algorithm{cose.AlgorithmES256, cose.AlgorithmES384, cose.AlgorithmES512, cose.AlgorithmEdDSA,
+	cose.AlgorithmPS256, cose.AlgorithmPS384, cose.AlgorithmPS512}
+
+func realKeyFor(alg cose.Algorithm, r *rng) realKey {
+	switch alg {
+	case cose.AlgorithmES256, cose.AlgorithmES384, cose.AlgorithmES512:
+		c := map[cose.Algorithm]elliptic.Curve{cose.AlgorithmES256: elliptic.P256(), cose.AlgorithmES384: elliptic.P384(), cose.AlgorithmES512: elliptic.P521()}[alg]
+		k := detKey(c, fmt.Sprintf("real%d", r.intn(6)))
+		return realKey{alg, "ecdsa", k, &k.PublicKey}
+	case cose.AlgorithmEdDSA:
+		seed := sha256.Sum256([]byte(fmt.Sprintf("ed%d", r.intn(6))))
+		k := ed25519.NewKeyFromSeed(seed[:])
+		return realKey{alg, "ed25519", k, k.Public()}
+	}
+	bits := 2048
+	if r.chance(1, 4) {
+		bits = 3072
+	}
+	k := rsaKey(bits)
+	return realKey{alg, "rsa", k, &k.PublicKey}
+}
+
+// stdlib signature over tbs, formatted as COSE demands (independent of go-cose)
+func stdSign(k realKey, tbs []byte) []byte {
+	switch k.name {
+	case "ecdsa":
+		sk := k.priv.(*ecdsa.PrivateKey)
+		r, s, err := ecdsa.Sign(rand.Reader, sk, hashFor(k.alg, tbs))
+		if err != nil {
+			panic("bad ecdsa sign")
+		}
+		n := (sk.Curve.Params().N.BitLen() + 7) / 8
+		return append(leftPadBytes(r.Bytes(), n), leftPadBytes(s.Bytes(), n)...)
+	case "ed25519":
+		return ed25519.Sign(k.priv.(ed25519.PrivateKey), tbs)
+	}
+	h := hashOf(k.alg)
+	sig, err := rsa.SignPSS(rand.Reader, k.priv.(*rsa.PrivateKey), h, hashFor(k.alg, tbs), &rsa.PSSOptions{SaltLength: rsa.PSSSaltLengthEqualsHash})
+	if err != nil {
+		panic("bad rsa sign")
+	}
+	return sig
+}
+
+func hashOf(alg cose.Algorithm) crypto.Hash {
+	switch alg {
+	case cose.AlgorithmES256, cose.AlgorithmPS256:
+		return crypto.SHA256
+	case cose.AlgorithmES384, cose.AlgorithmPS384:
+		return crypto.SHA384
+	}
+	return crypto.SHA512
+}
+
+// stdlib verification of a COSE-formatted signature over tbs
+func stdVerify(k realKey, tbs, sig []byte) bool {
+	switch k.name {
+	case "ecdsa":
+		pk := k.pub.(*ecdsa.PublicKey)
+		n := (pk.Curve.Params().N.BitLen() + 7) / 8
+		if len(sig) != 2*n {
+			return false
+		}
+		return ecdsa.Verify(pk, hashFor(k.alg, tbs), new(big.Int).SetBytes(sig[:n]), new(big.Int).SetBytes(sig[n:]))
+	case "ed25519":
+		pk := k.pub.(ed25519.PublicKey)
+		return len(sig) == ed25519.SignatureSize && ed25519.Verify(pk, tbs, sig)
+	}
+	return rsa.VerifyPSS(k.pub.(*rsa.PublicKey), hashOf(k.alg), hashFor(k.alg, tbs), sig, &rsa.PSSOptions{SaltLength: rsa.PSSSaltLengthEqualsHash}) == nil
+}
+
+// content of a definite-length bstr encoding (any head width); ok=false if not one
+func bstrContent(raw []byte) ([]byte, bool) {
+	if len(raw) == 0 || raw[0]>>5 != 2 {
+		return nil, false
+	}
+	ai := raw[0] & 0x1f
+	var n uint64
+	off := 1
+	switch {
+	case ai < 24:
+		n = uint64(ai)
+	case ai == 24 && len(raw) >= 2:
+		n, off = uint64(raw[1]), 2
+	case ai == 25 && len(raw) >= 3:
+		n, off = uint64(raw[1])<<8|uint64(raw[2]), 3
+	case ai == 26 && len(raw) >= 5:
+		n, off = uint64(raw[1])<<24|uint64(raw[2])<<16|uint64(raw[3])<<8|uint64(raw[4]), 5
+	case ai == 27 && len(raw) >= 9:
+		for i := 1; i <= 8; i++ {
+			n = n<<8 | uint64(raw[i])
+		}
+		off = 9
+	default:
+		return nil, false
+	}
+	if uint64(len(raw)-off) != n {
+		return nil, false
+	}
+	return raw[off:], true
+}
+
+type sweep struct {
+	evals, nontrivial int
+	fails             []string
+}
+
+func (s *sweep) fail(cas, detail, what string) {
+	if len(s.fails) < 20 {
+		s.fails = append(s.fails, "FAIL "+cas+" || "+detail+" || "+what)
+	}
+}
+
+func (s *sweep) finish() int {
+	fmt.Printf("SUMMARY evaluations=%d nontrivial=%d\n", s.evals, s.nontrivial)
+	for _, f := range s.fails {
+		fmt.Println(f)
+	}
+	if len(s.fails) > 0 {
+		return 1
+	}
 	return 0
+}
+
+func goHeaders(h *hdrSpec) cose.Headers {
+	p := &parser{s: h.gotext()}
+	out := p.headers()
+	p.done()
+	return out
+}
+
+func stripAlg(h *hdrSpec, alg int64) {
+	out := h.prot[:0:0]
+	for _, e := range h.prot {
+		if !(e.label.kind == "int" && (e.label.i == 1 || e.label.i == 2)) {
+			out = append(out, e)
+		}
+	}
+	h.prot = out
+}
+
+func extBytes(s string) []byte { return unhex(s) }
+
+func realSweep(family string, n int, seed uint64, args []string) int {
+	r := &rng{s: seed*0x9e3779b97f4a7c15 + 12345 + uint64(len(family))}
+	sw := &sweep{}
+	switch family {
+	case "chain":
+		realChain(r, n, sw)
+	case "tamper":
+		realTamper(r, n, sw, true)
+	case "foreign":
+		realTamper(r, n, sw, false)
+	case "keysv":
+		realKeySV(r, n, sw)
+	case "digest":
+		realDigest(r, n, sw)
+	case "conc":
+		realConc(r, n, sw)
+	default:
+		fmt.Fprintln(os.Stderr, "unknown real family", family)
+		return 2
+	}
+	return sw.finish()
+}
+
+// ---------------------------------------------------------------- C01: sign → wire → verify
+
+func signerVerifier(k realKey, viaKey bool) (cose.Signer, cose.Verifier, error) {
+	if viaKey && k.name != "rsa" {
+		ck, err := cose.NewKeyFromPrivate(k.priv)
+		if err != nil {
+			return nil, nil, err
+		}
+		enc, err := ck.MarshalCBOR()
+		if err != nil {
+			return nil, nil, err
+		}
+		var ck2 cose.Key
+		if err := ck2.UnmarshalCBOR(enc); err != nil {
+			return nil, nil, err
+		}
+		s, err := ck2.Signer()
+		if err != nil {
+			return nil, nil, err
+		}
+		v, err := ck2.Verifier()
+		return s, v, err
+	}
+	s, err := cose.NewSigner(k.alg, k.priv)
+	if err != nil {
+		return nil, nil, err
+	}
+	v, err := cose.NewVerifier(k.alg, k.pub)
+	return s, v, err
+}
+
+func realChain(r *rng, n int, sw *sweep) {
+	cfg := &genCfg{exoticSpell: 30, invalid: 0, depth: 1, maxEntries: 20, goSide: true}
+	for i := 0; i < n; i++ {
+		alg := realAlgs[r.intn(len(realAlgs))]
+		k := realKeyFor(alg, r)
+		signer, verifier, err := signerVerifier(k, r.chance(1, 3))
+		if err != nil {
+			sw.fail("chain", err.Error(), "cannot build signer/verifier for a valid key")
+			continue
+		}
+		h := randHeaders(r, cfg)
+		stripAlg(&h, int64(alg))
+		if r.chance(2, 3) {
+			h.prot = append(h.prot, hentry{hInt(1), hAlg(int64(alg))})
+		}
+		payload := randPayload(r, true)
+		if payload == nil {
+			payload = []byte{}
+		}
+		exts := randExt(r)
+		ext := extBytes(exts)
+		detach := r.chance(1, 4)
+		kind := r.intn(6)
+		desc := fmt.Sprintf("kind=%d alg=%d hdr=%s payloadlen=%d ext=%s detach=%v", kind, alg, h.gotext(), len(payload), exts, detach)
+		sw.evals++
+		fail := func(what string, err error) { sw.fail("chain", desc+" err="+fmt.Sprint(err), what) }
+		switch kind {
+		case 0, 1: // Sign1 tagged / untagged
+			m := &cose.Sign1Message{Headers: goHeaders(&h), Payload: payload}
+			if err := m.Sign(rand.Reader, ext, signer); err != nil {
+				fail("Sign failed on a valid message", err)
+				continue
+			}
+			if err := m.Verify(ext, verifier); err != nil {
+				fail("in-memory Verify failed after Sign", err)
+				continue
+			}
+			if detach {
+				m.Payload = nil
+			}
+			var enc []byte
+			var m2 cose.Sign1Message
+			if kind == 0 {
+				enc, err = m.MarshalCBOR()
+				if err == nil {
+					err = m2.UnmarshalCBOR(enc)
+				}
+			} else {
+				enc, err = (*cose.UntaggedSign1Message)(m).MarshalCBOR()
+				if err == nil {
+					err = (*cose.UntaggedSign1Message)(&m2).UnmarshalCBOR(enc)
+				}
+			}
+			if err != nil {
+				fail("wire round trip failed", err)
+				continue
+			}
+			if detach {
+				m2.Payload = payload
+			}
+			if err := m2.Verify(ext, verifier); err != nil {
+				fail("Verify failed after the wire round trip", err)
+				continue
+			}
+			// independent oracle: stdlib verification over the RFC structure built from the wire
+			content, ok := bstrContent(m2.Headers.RawProtected)
+			e := ext
+			if e == nil {
+				e = []byte{}
+			}
+			if !ok || !stdVerify(k, refTBS1(content, e, payload), m2.Signature) {
+				fail("signature is not valid over the RFC 9052 Sig_structure of the wire bytes (stdlib oracle)", nil)
+				continue
+			}
+			sw.nontrivial++
+		case 2: // COSE_Sign with 1..3 signers
+			ns := 1 + r.intn(3)
+			m := &cose.SignMessage{Headers: goHeaders(&h), Payload: payload}
+			var signers []cose.Signer
+			var verifiers []cose.Verifier
+			var keys []realKey
+			for j := 0; j < ns; j++ {
+				a := realAlgs[r.intn(len(realAlgs))]
+				kj := realKeyFor(a, r)
+				sj, vj, err := signerVerifier(kj, false)
+				if err != nil {
+					fail("cannot build signer", err)
+				}
+				sh := cose.Headers{Protected: cose.ProtectedHeader{cose.HeaderLabelAlgorithm: a}, Unprotected: cose.UnprotectedHeader{cose.HeaderLabelKeyID: []byte{byte(j)}}}
+				m.Signatures = append(m.Signatures, &cose.Signature{Headers: sh})
+				signers, verifiers, keys = append(signers, sj), append(verifiers, vj), append(keys, kj)
+			}
+			if err := m.Sign(rand.Reader, ext, signers...); err != nil {
+				fail("SignMessage.Sign failed", err)
+				continue
+			}
+			if detach {
+				m.Payload = nil
+			}
+			enc, err := m.MarshalCBOR()
+			var m2 cose.SignMessage
+			if err == nil {
+				err = m2.UnmarshalCBOR(enc)
+			}
+			if err != nil {
+				fail("wire round trip failed", err)
+				continue
+			}
+			if detach {
+				m2.Payload = payload
+			}
+			if err := m2.Verify(ext, verifiers...); err != nil {
+				fail("SignMessage.Verify failed after the wire round trip", err)
+				continue
+			}
+			e := ext
+			if e == nil {
+				e = []byte{}
+			}
+			body, ok := bstrContent(m2.Headers.RawProtected)
+			for j, sg := range m2.Signatures {
+				sp, ok2 := bstrContent(sg.Headers.RawProtected)
+				if !ok || !ok2 || !stdVerify(keys[j], refTBSSig(body, sp, e, payload), sg.Signature) {
+					fail(fmt.Sprintf("signer %d: signature not valid over the RFC Sig_structure (stdlib oracle)", j), nil)
+				}
+			}
+			sw.nontrivial++
+		case 3, 4: // countersignatures over decoded / constructed parents
+			parentMsg := &cose.Sign1Message{Headers: goHeaders(&h), Payload: payload}
+			pk := realKeyFor(realAlgs[r.intn(len(realAlgs))], r)
+			ps, _, err := signerVerifier(pk, false)
+			if err != nil {
+				fail("cannot build signer", err)
+				continue
+			}
+			parentMsg.Headers.Protected = cose.ProtectedHeader{cose.HeaderLabelAlgorithm: pk.alg}
+			if err := parentMsg.Sign(rand.Reader, nil, ps); err != nil {
+				fail("parent Sign failed", err)
+				continue
+			}
+			var parent any = parentMsg
+			if r.chance(1, 2) {
+				enc, err := parentMsg.MarshalCBOR()
+				var dec cose.Sign1Message
+				if err == nil {
+					err = dec.UnmarshalCBOR(enc)
+				}
+				if err != nil {
+					fail("parent round trip failed", err)
+					continue
+				}
+				parent = &dec
+				if r.chance(1, 2) {
+					parent = dec
+				}
+			}
+			if kind == 3 {
+				cs := cose.NewCountersignature()
+				cs.Headers.Protected.SetAlgorithm(alg)
+				if err := cs.Sign(rand.Reader, signer, parent, ext); err != nil {
+					fail("Countersignature.Sign failed", err)
+					continue
+				}
+				enc, err := cs.MarshalCBOR()
+				var cs2 cose.Countersignature
+				if err == nil {
+					err = cs2.UnmarshalCBOR(enc)
+				}
+				if err != nil {
+					fail("countersignature round trip failed", err)
+					continue
+				}
+				if err := cs2.Verify(verifier, parent, ext); err != nil {
+					fail("Countersignature.Verify failed after round trip", err)
+					continue
+				}
+			} else {
+				sig, err := cose.Countersign0(rand.Reader, signer, parent, ext)
+				if err != nil {
+					fail("Countersign0 failed", err)
+					continue
+				}
+				if err := cose.VerifyCountersign0(verifier, parent, ext, sig); err != nil {
+					fail("VerifyCountersign0 failed", err)
+					continue
+				}
+			}
+			sw.nontrivial++
+		case 5: // hash envelope
+			hv := sha256.Sum256(payload)
+			hh := h
+			out := hh.prot[:0:0]
+			for _, e := range hh.prot {
+				if !(e.label.kind == "int" && (e.label.i == 3 || e.label.i >= 258 && e.label.i <= 260)) {
+					out = append(out, e)
+				}
+			}
+			hh.prot = out
+			out = hh.unprot[:0:0]
+			for _, e := range hh.unprot {
+				if !(e.label.kind == "int" && (e.label.i == 3 || e.label.i >= 258 && e.label.i <= 260)) {
+					out = append(out, e)
+				}
+			}
+			hh.unprot = out
+			env, err := cose.SignHashEnvelope(rand.Reader, signer, goHeaders(&hh), cose.HashEnvelopePayload{
+				HashAlgorithm: cose.AlgorithmSHA256, HashValue: hv[:], PreimageContentType: "text/plain", Location: "urn:x"})
+			if err != nil {
+				fail("SignHashEnvelope failed", err)
+				continue
+			}
+			m, err := cose.VerifyHashEnvelope(verifier, env)
+			if err != nil || !bytes.Equal(m.Payload, hv[:]) {
+				fail("VerifyHashEnvelope refused the envelope SignHashEnvelope produced", err)
+				continue
+			}
+			sw.nontrivial++
+		}
+	}
+}
+
+// ---------------------------------------------------------------- C03 / C07: foreign messages
+
+// a conforming COSE_Sign1 built and signed by the harness alone (own encoder, stdlib crypto)
+func foreignSign1(r *rng, k realKey, cfg *genCfg) (*W, []byte, []byte, string) {
+	h := randHeaders(r, cfg)
+	stripAlg(&h, int64(k.alg))
+	h.prot = append(h.prot, hentry{hInt(1), hInt(int64(k.alg))})
+	m := &msgSpec{kind: "s1", h: h, ext: randExt(r)}
+	m.payload = randPayload(r, false)
+	if m.payload == nil {
+		m.payload = []byte{}
+	}
+	root := m.wire(r, 40)
+	ext := unhex(m.ext)
+	if ext == nil {
+		ext = []byte{}
+	}
+	root.Items[3].B = stdSign(k, refTBS1(root.Items[0].B, ext, m.payload))
+	return root, m.payload, ext, m.ext
+}
+
+func realTamper(r *rng, n int, sw *sweep, mutate bool) {
+	cfg := &genCfg{exoticSpell: 0, invalid: 0, depth: 1, maxEntries: 12}
+	for i := 0; i < n; i++ {
+		alg := realAlgs[r.intn(len(realAlgs))]
+		k := realKeyFor(alg, r)
+		verifier, err := cose.NewVerifier(k.alg, k.pub)
+		if err != nil {
+			sw.fail("tamper", err.Error(), "NewVerifier failed for a valid key")
+			continue
+		}
+		root, payload, ext, exts := foreignSign1(r, k, cfg)
+		top := wTag(18, root)
+		wire := top.enc()
+		vext := ext
+		edits := "none"
+		if mutate {
+			switch r.intn(8) {
+			case 0, 1:
+				wire = mutateRaw(r, wire)
+				edits = "raw"
+				if r.chance(1, 3) {
+					wire = mutateRaw(r, wire)
+				}
+			case 2:
+				mutateTree(r, top)
+				wire = top.enc()
+				edits = "struct"
+			case 3: // change the external data only
+				vext = append(append([]byte{}, ext...), 1)
+				edits = "ext"
+			case 4: // unprotected-only change: verdict must stay valid
+				root.Items[1].Items = append(root.Items[1].Items, wInt(int64(1000+r.intn(50))), wInt(5))
+				wire = top.enc()
+				edits = "unprot"
+			case 5: // re-encode the protected map canonically (changes protected bytes unless already canonical)
+				edits = "reencode-protected"
+				inner := entriesWire(nil)
+				_ = inner
+				pc := append([]byte{}, root.Items[0].B...)
+				if len(pc) > 0 {
+					pc[len(pc)-1] ^= 0x01
+				}
+				root.Items[0].B = pc
+				wire = top.enc()
+			case 6: // transplant the signature of another message
+				root2, _, _, _ := foreignSign1(r, k, cfg)
+				root.Items[3].B = root2.Items[3].B
+				wire = top.enc()
+				edits = "transplant"
+			case 7: // other key
+				k2 := realKeyFor(alg, r)
+				if v2, err := cose.NewVerifier(k2.alg, k2.pub); err == nil {
+					verifier, k = v2, k2
+				}
+				edits = "otherkey"
+			}
+		}
+		sw.evals++
+		var m cose.Sign1Message
+		desc := fmt.Sprintf("alg=%d edits=%s ext=%s wire=%s", alg, edits, exts, hex.EncodeToString(wire))
+		if err := m.UnmarshalCBOR(wire); err != nil {
+			if !mutate {
+				sw.fail("foreign", desc, "a conforming message from an independent encoder was refused: "+err.Error())
+			}
+			continue
+		}
+		got := m.Verify(vext, verifier)
+		// oracle: stdlib verification over the RFC structure of the received bytes
+		content, ok := bstrContent(m.Headers.RawProtected)
+		want := ok && m.Payload != nil && stdVerify(k, refTBS1(content, vext, m.Payload), m.Signature)
+		// the algorithm gate: alg in the received protected bytes must equal the verifier's
+		if a, err := m.Headers.Protected.Algorithm(); err != nil || a != k.alg {
+			want = false
+		}
+		if (got == nil) != want {
+			sw.fail("tamper", desc+fmt.Sprintf(" got=%v want=%v", got, want), "Verify verdict differs from stdlib verification over the RFC Sig_structure of the received bytes")
+			continue
+		}
+		if got != nil && want == false && edits == "none" {
+			sw.fail("foreign", desc, "unmodified conforming message does not verify")
+		}
+		if edits == "unprot" && got != nil {
+			sw.fail("tamper", desc, "a change confined to the unprotected headers changed the verdict")
+		}
+		if got == nil || edits != "none" {
+			sw.nontrivial++
+		}
+		_ = payload
+	}
+}
+
+// ---------------------------------------------------------------- C14: keys through COSE_Key
+
+func realKeySV(r *rng, n int, sw *sweep) {
+	for i := 0; i < n; i++ {
+		var priv crypto.Signer
+		var alg cose.Algorithm
+		desc := ""
+		if r.chance(1, 5) {
+			seed := sha256.Sum256(r.bytes(8))
+			priv, alg = ed25519.NewKeyFromSeed(seed[:]), cose.AlgorithmEdDSA
+			desc = "ed25519 seed=" + hex.EncodeToString(seed[:])
+		} else {
+			cn := []string{"p256", "p384", "p521"}[r.intn(3)]
+			c, a := curveOf(cn)
+			size := (c.Params().BitSize + 7) / 8
+			var k *ecdsa.PrivateKey
+			// prefer keys with a leading zero byte in x, y or d
+			for try := 0; try < 600; try++ {
+				k = detKey(c, fmt.Sprintf("sv%d-%d", i, r.next()))
+				if len(k.X.Bytes()) < size || len(k.Y.Bytes()) < size || len(k.D.Bytes()) < size {
+					break
+				}
+			}
+			priv, alg = k, a
+			desc = fmt.Sprintf("%s xlen=%d ylen=%d dlen=%d d=%x", cn, len(k.X.Bytes()), len(k.Y.Bytes()), len(k.D.Bytes()), k.D.Bytes())
+		}
+		sw.evals++
+		ck, err := cose.NewKeyFromPrivate(priv)
+		if err != nil {
+			sw.fail("keysv", desc, "NewKeyFromPrivate failed: "+err.Error())
+			continue
+		}
+		enc, err := ck.MarshalCBOR()
+		var ck2 cose.Key
+		if err == nil {
+			err = ck2.UnmarshalCBOR(enc)
+		}
+		if err != nil {
+			sw.fail("keysv", desc, "COSE_Key round trip failed: "+err.Error())
+			continue
+		}
+		if ek, ok := priv.(*ecdsa.PrivateKey); ok {
+			_, x, y, _ := ck2.EC2()
+			size := (ek.Curve.Params().BitSize + 7) / 8
+			if len(x) != size || len(y) != size {
+				sw.fail("keysv", desc, fmt.Sprintf("serialised coordinate not full width: x=%d y=%d want %d", len(x), len(y), size))
+				continue
+			}
+			p2, err := ck2.PrivateKey()
+			if err != nil || !p2.(*ecdsa.PrivateKey).Equal(ek) {
+				sw.fail("keysv", desc, "private key does not round-trip")
+				continue
+			}
+		} else {
+			p2, err := ck2.PrivateKey()
+			if err != nil || !p2.(ed25519.PrivateKey).Equal(priv) {
+				sw.fail("keysv", desc, "private key does not round-trip")
+				continue
+			}
+		}
+		// signer from the COSE_Key, verifier from its public counterpart (separately serialised)
+		pubKey, err := cose.NewKeyFromPublic(priv.Public())
+		var pub2 cose.Key
+		if err == nil {
+			var b []byte
+			b, err = pubKey.MarshalCBOR()
+			if err == nil {
+				err = pub2.UnmarshalCBOR(b)
+			}
+		}
+		if err != nil {
+			sw.fail("keysv", desc, "public COSE_Key round trip failed: "+err.Error())
+			continue
+		}
+		s, err1 := ck2.Signer()
+		v, err2 := pub2.Verifier()
+		if err1 != nil || err2 != nil {
+			sw.fail("keysv", desc, fmt.Sprintf("Signer/Verifier from COSE_Key failed: %v %v", err1, err2))
+			continue
+		}
+		content := r.bytes(r.intn(40))
+		sig, err := s.Sign(rand.Reader, content)
+		if err != nil || v.Verify(content, sig) != nil {
+			sw.fail("keysv", desc, "signature from the COSE_Key signer is refused by the verifier of its public counterpart")
+			continue
+		}
+		if !stdVerify(realKey{alg: alg, name: map[bool]string{true: "ed25519", false: "ecdsa"}[alg == cose.AlgorithmEdDSA], pub: priv.Public()}, content, sig) {
+			sw.fail("keysv", desc, "signature not valid under the original Go key (stdlib oracle)")
+			continue
+		}
+		sw.nontrivial++
+	}
+}
+
+// ---------------------------------------------------------------- C17: digest equivalence
+
+func realDigest(r *rng, n int, sw *sweep) {
+	for i := 0; i < n; i++ {
+		alg := []cose.Algorithm{cose.AlgorithmES256, cose.AlgorithmES384, cose.AlgorithmES512, cose.AlgorithmPS256, cose.AlgorithmPS384, cose.AlgorithmPS512}[r.intn(6)]
+		k := realKeyFor(alg, r)
+		var sk crypto.Signer = k.priv
+		if k.name == "ecdsa" && r.chance(1, 2) {
+			sk = wrapped{k.priv} // the crypto.Signer path (ASN.1 → fixed width)
+		}
+		s, err := cose.NewSigner(alg, sk)
+		v, err2 := cose.NewVerifier(alg, k.pub)
+		sw.evals++
+		if err != nil || err2 != nil {
+			sw.fail("digest", fmt.Sprint(alg), "NewSigner/NewVerifier failed")
+			continue
+		}
+		ds, ok1 := s.(cose.DigestSigner)
+		dv, ok2 := v.(cose.DigestVerifier)
+		if !ok1 || !ok2 {
+			sw.fail("digest", fmt.Sprint(alg), "built-in signer/verifier lacks the digest entry point")
+			continue
+		}
+		content := r.bytes(r.intn(100))
+		dg := hashFor(alg, content)
+		sig1, e1 := s.Sign(rand.Reader, content)
+		sig2, e2 := ds.SignDigest(rand.Reader, dg)
+		desc := fmt.Sprintf("alg=%d content=%x", alg, content)
+		if e1 != nil || e2 != nil {
+			sw.fail("digest", desc, "signing failed")
+			continue
+		}
+		for j, sig := range [][]byte{sig1, sig2} {
+			if v.Verify(content, sig) != nil || dv.VerifyDigest(dg, sig) != nil {
+				sw.fail("digest", desc, fmt.Sprintf("signature from entry point %d does not verify through both Verify and VerifyDigest", j))
+			}
+			if !stdVerify(k, content, sig) {
+				sw.fail("digest", desc, "signature invalid under the algorithm's hash (stdlib oracle)")
+			}
+			// no other hash
+			for _, other := range []cose.Algorithm{cose.AlgorithmES256, cose.AlgorithmES384, cose.AlgorithmES512} {
+				od := hashFor(other, content)
+				if len(od) != len(dg) && dv.VerifyDigest(od, sig) == nil {
+					sw.fail("digest", desc, "signature verifies against a digest under another hash")
+				}
+			}
+		}
+		if k.name == "ecdsa" {
+			nb := (k.pub.(*ecdsa.PublicKey).Curve.Params().N.BitLen() + 7) / 8
+			if len(sig1) != 2*nb || len(sig2) != 2*nb {
+				sw.fail("digest", desc, "ECDSA signature is not 2n bytes")
+			}
+		}
+		sw.nontrivial++
+	}
+}
+
+// ---------------------------------------------------------------- C18: concurrency (run under -race)
+
+func realConc(r *rng, n int, sw *sweep) {
+	cfg := &genCfg{exoticSpell: 20, invalid: 0, depth: 1, maxEntries: 10, goSide: true}
+	for i := 0; i < n; i++ {
+		alg := realAlgs[r.intn(len(realAlgs))]
+		k := realKeyFor(alg, r)
+		signer, verifier, err := signerVerifier(k, false)
+		if err != nil {
+			sw.fail("conc", "", "cannot build signer")
+			continue
+		}
+		h := randHeaders(r, cfg)
+		stripAlg(&h, int64(alg))
+		h.prot = append(h.prot, hentry{hInt(1), hAlg(int64(alg))})
+		payload := r.bytes(r.intn(50))
+		m := &cose.Sign1Message{Headers: goHeaders(&h), Payload: payload}
+		if err := m.Sign(rand.Reader, nil, signer); err != nil {
+			sw.fail("conc", h.gotext(), "Sign failed: "+err.Error())
+			continue
+		}
+		// half of the runs use a decoded message
+		if r.chance(1, 2) {
+			enc, err := m.MarshalCBOR()
+			var d cose.Sign1Message
+			if err == nil {
+				err = d.UnmarshalCBOR(enc)
+			}
+			if err != nil {
+				sw.fail("conc", h.gotext(), "round trip failed")
+				continue
+			}
+			m = &d
+		}
+		cs := cose.NewCountersignature()
+		cs.Headers.Protected.SetAlgorithm(alg)
+		if err := cs.Sign(rand.Reader, signer, m, nil); err != nil {
+			sw.fail("conc", h.gotext(), "countersign failed")
+			continue
+		}
+		hv := sha256.Sum256(payload)
+		env, err := cose.SignHashEnvelope(rand.Reader, signer, cose.Headers{}, cose.HashEnvelopePayload{HashAlgorithm: cose.AlgorithmSHA256, HashValue: hv[:]})
+		if err != nil {
+			sw.fail("conc", "", "SignHashEnvelope failed")
+			continue
+		}
+		var ck *cose.Key
+		if k.name != "rsa" {
+			ck, _ = cose.NewKeyFromPublic(k.pub)
+		}
+		before := dumpSign1(m) + dumpSignature((*cose.Signature)(cs))
+		seqEnc, _ := m.MarshalCBOR()
+		const G = 8
+		var wg sync.WaitGroup
+		errs := make([]string, G)
+		for g := 0; g < G; g++ {
+			wg.Add(1)
+			go func(g int) {
+				defer wg.Done()
+				for it := 0; it < 4; it++ {
+					if err := m.Verify(nil, verifier); err != nil {
+						errs[g] = "Verify: " + err.Error()
+					}
+					if enc, err := m.MarshalCBOR(); err != nil || !bytes.Equal(enc, seqEnc) {
+						errs[g] = "MarshalCBOR differs from the sequential result"
+					}
+					if err := cs.Verify(verifier, m, nil); err != nil {
+						errs[g] = "Countersignature.Verify: " + err.Error()
+					}
+					if _, err := cose.VerifyHashEnvelope(verifier, env); err != nil {
+						errs[g] = "VerifyHashEnvelope: " + err.Error()
+					}
+					if ck != nil {
+						if _, err := ck.Verifier(); err != nil {
+							errs[g] = "Key.Verifier: " + err.Error()
+						}
+						if _, err := ck.MarshalCBOR(); err != nil {
+							errs[g] = "Key.MarshalCBOR: " + err.Error()
+						}
+					}
+					// one signer, distinct messages
+					mm := &cose.Sign1Message{Headers: cose.Headers{Protected: cose.ProtectedHeader{cose.HeaderLabelAlgorithm: alg}}, Payload: []byte{byte(g), byte(it)}}
+					if err := mm.Sign(rand.Reader, nil, signer); err != nil {
+						errs[g] = "concurrent Sign: " + err.Error()
+					} else if err := mm.Verify(nil, verifier); err != nil {
+						errs[g] = "concurrent Sign produced a signature that does not verify"
+					}
+				}
+			}(g)
+		}
+		wg.Wait()
+		sw.evals++
+		bad := false
+		for _, e := range errs {
+			if e != "" {
+				sw.fail("conc", h.gotext(), e)
+				bad = true
+			}
+		}
+		if before != dumpSign1(m)+dumpSignature((*cose.Signature)(cs)) {
+			sw.fail("conc", h.gotext(), "a shared value was modified by read-only operations")
+			bad = true
+		}
+		if !bad {
+			sw.nontrivial++
+		}
+	}
+	_ = strings.Join
 }
